@@ -79,27 +79,49 @@ fn check_output(output: &Output) -> Result<()> {
 }
 
 /// Places the client-supplied `suffix` below `path`, resolving it the way a process whose root
-/// directory is `path` would: an absolute suffix starts again from `path`, `.` is skipped and
-/// `..` steps back but never above `path`. The result is `path` followed by plain file names
-/// only, so creating or opening it cannot reach anything outside `path` (as long as nothing
-/// below `path` is a symlink).
-fn join_suffix<P: AsRef<Path>>(path: &Path, suffix: P) -> PathBuf {
-    let mut names = vec![];
-    for component in suffix.as_ref().components() {
-        match component {
-            path::Component::Prefix(_) | path::Component::RootDir => names.clear(),
-            path::Component::CurDir => {}
-            path::Component::ParentDir => {
+/// directory is `path` would: an absolute suffix starts again from `path`, `.` is skipped, `..`
+/// steps back but never above `path`, and a symlink found on the way (unpacked from the inputs or
+/// left behind by the compile) is followed *inside* `path`. The result is `path` followed by plain
+/// file names none of which is a symlink, so creating or opening it cannot reach anything outside
+/// `path`.
+fn join_suffix<P: AsRef<Path>>(path: &Path, suffix: P) -> Result<PathBuf> {
+    // The components still to be resolved, the next one last
+    let mut todo: Vec<PathBuf> = suffix
+        .as_ref()
+        .components()
+        .rev()
+        .map(|c| PathBuf::from(c.as_os_str()))
+        .collect();
+    let mut names: Vec<PathBuf> = vec![];
+    let mut links_followed = 0;
+    while let Some(part) = todo.pop() {
+        match part.components().next() {
+            None | Some(path::Component::CurDir) => {}
+            Some(path::Component::Prefix(_)) | Some(path::Component::RootDir) => names.clear(),
+            Some(path::Component::ParentDir) => {
                 names.pop();
             }
-            path::Component::Normal(name) => names.push(name),
+            Some(path::Component::Normal(_)) => {
+                let mut candidate = path.to_owned();
+                candidate.extend(&names);
+                candidate.push(&part);
+                match candidate.read_link() {
+                    Ok(link) => {
+                        links_followed += 1;
+                        if links_followed > 40 {
+                            bail!("too many levels of symbolic links in {:?}", suffix.as_ref())
+                        }
+                        todo.extend(link.components().rev().map(|c| PathBuf::from(c.as_os_str())));
+                    }
+                    // Not a symlink (or not there yet)
+                    Err(_) => names.push(part),
+                }
+            }
         }
     }
     let mut joined = path.to_owned();
-    for name in names {
-        joined.push(name);
-    }
-    joined
+    joined.extend(&names);
+    Ok(joined)
 }
 
 #[derive(Debug)]
@@ -341,7 +363,7 @@ impl OverlayBuilder {
                     let cwd = Path::new(&cwd);
 
                     trace!("creating output directories");
-                    fs::create_dir_all(join_suffix(&target_dir, cwd))
+                    fs::create_dir_all(join_suffix(&target_dir, cwd)?)
                         .context("Failed to create cwd")?;
                     for path in output_paths.iter() {
                         // If it doesn't have a parent, nothing needs creating
@@ -350,7 +372,7 @@ impl OverlayBuilder {
                         } else {
                             continue;
                         };
-                        fs::create_dir_all(join_suffix(&target_dir, cwd.join(output_parent)))
+                        fs::create_dir_all(join_suffix(&target_dir, cwd.join(output_parent))?)
                             .context("Failed to create an output directory")?;
                     }
 
@@ -405,7 +427,7 @@ impl OverlayBuilder {
                     let mut outputs = vec![];
                     trace!("retrieving {:?}", output_paths);
                     for path in output_paths {
-                        let abspath = join_suffix(&target_dir, cwd.join(&path)); // Resolve in case it's relative since we copy it from the root level
+                        let abspath = join_suffix(&target_dir, cwd.join(&path))?; // Resolve in case it's relative since we copy it from the root level
                         match fs::File::open(abspath) {
                             Ok(file) => {
                                 let output = OutputData::try_from_reader(file)
